@@ -14,6 +14,10 @@ from .ctx import Unsupported
 from .interp import _Break, _Continue, _Return
 
 
+class LoopContractMisfit(Unsupported):
+    """A loop contract (invariant / variant / ghost state) refers to variables or a structure the code no longer has."""
+
+
 class PathEnd(Exception):
     """The symbolic iteration of a cut loop ended (nothing after it on this path)."""
 
@@ -48,14 +52,23 @@ class LoopSpec:
         self.havoc_sort = havoc_sort or {}
         self.on_havoc = on_havoc
 
+    def _inv(self, S):
+        """The invariant is written against the variables of the code as it stands; when the loop has been
+        rewritten (other names, another nesting) it cannot even be stated: the proof of this function is then not
+        re-established on this tree -- which is not a finding about the code."""
+        try:
+            return list(self.invariant(S))
+        except (KeyError, AttributeError, TypeError, IndexError) as e:
+            raise LoopContractMisfit(f"loop contract {self.label} does not fit this code ({type(e).__name__}: {e})")
+
     def _check_inv(self, interp, env, ctx, phase):
         S = LoopState(interp, env, ctx)
-        for name, f in self.invariant(S):
+        for name, f in self._inv(S):
             ctx.oblige(f"{self.label}.{phase}.{name}", f, "loop")
 
     def _assume_inv(self, interp, env, ctx):
         S = LoopState(interp, env, ctx)
-        for name, f in self.invariant(S):
+        for name, f in self._inv(S):
             ctx.assume(f, why=f"{self.label}.inv.{name}")
 
     def run_while(self, interp, st, env, ctx):
@@ -82,7 +95,10 @@ class LoopSpec:
                 interp.exec_block(st.orelse, env, ctx)
             return
         S0 = LoopState(interp, env, ctx)
-        before = self.decreases(S0) if self.decreases else None
+        try:
+            before = self.decreases(S0) if self.decreases else None
+        except (KeyError, AttributeError, TypeError, IndexError) as e:
+            raise LoopContractMisfit(f"loop contract {self.label} does not fit this code ({type(e).__name__}: {e})")
         try:
             interp.exec_block(st.body, env, ctx)
         except _Break:
